@@ -407,6 +407,96 @@ def generated_shard(args):
     return agg
 
 
+# ------------------------------------------------------------------------------------------------
+# matrix library: (how a delayed computation arises) x (how it fails), and failing objects behind wrappers that add
+# nothing (+ {}, {} +, objext, ...) held by containers; requests observe them shallowly, deeply, again, in any order
+
+def matrix_library():
+    fails = {
+        "err": "error 'm-err'", "assert": "assert false : 'm-assert'; 1", "type": "1 + {}", "nofield": "{}.nope", "div": "1 / 0",
+        "oob": "[][0]", "native": "std.parseInt('zz')", "overflow": "deep(450)", "cycle": "local a = b, b = a; a",
+        "nested_lazy": "[1, error 'm-nested']", "badcall": "(function(a, b) a)(1)", "ok": "7",
+    }
+    fns = {
+        "arity_more": "function(a, b) a", "arity_none": "function() 1", "body_err": "function(x) error 'm-fn-err'",
+        "body_type": "function(x) x.nope", "default_err": "function(x, y=error 'm-default') y", "default_ok": "function(x, y=x) [x, y]",
+        "builtin_arity": "std.manifestJsonEx", "builtin_type": "std.parseInt", "overflow": "function(x) deep(450)", "ok": "function(x) [x]",
+        "named_only": "function(x, y) x",
+    }
+    fields, reqs, clusters = [], [], []
+
+    def add(name, src, rq):
+        fields.append("  %s: %s," % (name, src))
+        start = len(reqs)
+        for r in rq:
+            reqs.append((name + ":" + r[:24], r.replace("@", "L." + name)))
+        clusters.append(list(range(start, len(reqs))))
+    for fk, f in fails.items():
+        add("e_field_" + fk, "{v: %s, w: 1}" % f, ["@.v", "@.w", "@", "std.length(@)", "@ == @"])
+        add("e_elem_" + fk, "[%s, 1]" % f, ["@[0]", "@[1]", "@", "std.length(@)"])
+        add("e_local_" + fk, "{local l = %s, v: l, w: 1}" % f, ["@.v", "@.w", "@"])
+        add("e_plus_" + fk, "{v: 1, w: 1} + {v+: %s}" % f, ["@.v", "@.w", "@", "std.objectFields(@)"])
+        add("e_plus_base_" + fk, "{v: %s, w: 1} + {v+: 1}" % f, ["@.v", "@.w", "@"])
+        add("e_comp_" + fk, "[%s for i in [1, 2]]" % f, ["@[0]", "@[1]", "std.length(@)", "@"])
+        add("e_objcomp_" + fk, "{[k]: %s for k in ['v', 'w']}" % f, ["@.v", "@.w", "std.length(@)", "@"])
+        add("e_default_" + fk, "function(x=%s) x" % f, ["@()", "@(1)"])
+        add("e_assertmsg_" + fk, "{assert self.w > 1 : %s, w: 1}" % f, ["@.w", "@"])
+    for nk, fn in fns.items():
+        add("c_map_" + nk, "std.map(%s, [1, 2])" % fn, ["@[0]", "@[1]", "std.length(@)", "@"])
+        add("c_mapidx_" + nk, "std.mapWithIndex(%s, [1, 2])" % fn, ["@[0]", "std.length(@)", "@"])
+        add("c_mapkey_" + nk, "std.mapWithKey(%s, {v: 1, w: 2})" % fn, ["@.v", "std.length(@)", "@", "std.objectFields(@)"])
+        add("c_filtermap_" + nk, "std.filterMap(function(x) true, %s, [1, 2])" % fn, ["@[0]", "std.length(@)", "@"])
+        add("c_makearray_" + nk, "std.makeArray(2, %s)" % fn, ["@[0]", "std.length(@)", "@"])
+        add("c_flatmap_" + nk, "std.flatMap(%s, [1, 2])" % fn, ["@", "std.length(@)"])
+        add("c_filter_" + nk, "std.filter(%s, [1, 2])" % fn, ["@", "std.length(@)"])
+        add("c_sortkey_" + nk, "std.sort([2, 1], %s)" % fn, ["@", "@[0]"])
+        add("c_foldl_" + nk, "std.foldl(%s, [1, 2], 0)" % fn, ["@"])
+    objs = {
+        "field_err": "{x: 1, bad: error 'm-inh'}", "assert": "{assert false : 'm-a-inh', x: 1}", "overflow": "{x: 1, bad: deep(450)}",
+        "nested": "{x: 1, bad: [1, {q: error 'm-deep-inh'}]}", "hidden_only": "{x: 1, bad:: error 'm-hidden-never'}",
+        "assert_late": "{assert self.x > 1 : 'm-late', x: 1}", "ok": "{x: 1, y: [1, {z: 2}]}",
+    }
+    wraps = {"id": "%s", "plus_empty": "%s + {}", "empty_plus": "{} + %s", "objext_empty": "%s {}", "plus_local": "%s + {local z = 1}",
+             "plus_assert": "%s + {assert true}", "plus_other": "%s + {y2: 2}", "rm_other": "std.objectRemoveKey(%s + {q: 1}, 'q')",
+             "plus_hidden": "%s + {hh:: 1}", "twice_empty": "%s + {} + {}", "in_local": "local t = %s; t + {}"}
+    holders = {"obj": ("{inner: %s, n: 1}", "@.inner"), "arr": ("[%s, 1]", "@[0]"), "obj_arr": ("{inner: [%s], n: 1}", "@.inner[0]"),
+               "deep": ("{a: {b: %s}, n: 1}", "@.a.b")}
+    for ok, o in objs.items():
+        for wk, w in wraps.items():
+            for hk, (h, path) in holders.items():
+                inner = path
+                add("h_%s_%s_%s" % (ok, wk, hk), h % ("(" + w % o + ")"),
+                    ["std.length(%s)" % inner, "std.objectHas(%s, 'x')" % inner, "%s.x" % inner, "std.type(%s)" % inner,
+                     "std.objectFields(%s)" % inner, "std.length(@)", "@", inner, "std.toString(@)", "@ == @",
+                     "std.manifestJsonEx(@, ' ')", "std.objectFieldsAll(%s)" % inner, "'bad' in %s" % inner])
+    lib = "local deep(n) = if n == 0 then 0 else 1 + deep(n - 1);\n{\n" + "\n".join(fields) + "\n}\n"
+    return lib, reqs, clusters
+
+
+MATRIX_LIB, MATRIX_REQS, MATRIX_CLUSTERS = matrix_library()
+
+
+def matrix_shard(args):
+    seed, n = args
+    rng = random.Random(seed)
+    agg = Agg()
+    srv = Server()
+    srv2 = Server()
+    try:
+        for i in range(n):
+            cluster = MATRIX_CLUSTERS[(seed * 7919 + i * 104729) % len(MATRIX_CLUSTERS)] if i % 2 == 0 else rng.choice(MATRIX_CLUSTERS)
+            h = [(rng.choice(cluster), rng.choice([None, None, None, 120, 2000]), rng.random() < 0.7, rng.random() < 0.4, rng.random() < 0.2)
+                 for _ in range(rng.randint(2, 5))]
+            if run_history(agg, srv, srv2, h, rng.choice(["import", "ext"]), lib=MATRIX_LIB, reqs=MATRIX_REQS):
+                agg.add("matrix_fields", MATRIX_REQS[cluster[0]][0].split(":")[0])
+            if len(agg.samples) < 1:
+                agg.sample({"leg": "matrix", "history": describe(h, MATRIX_REQS)})
+    finally:
+        srv.close()
+        srv2.close()
+    return agg
+
+
 def run(tier, seed):
     t0 = time.time()
     quick = tier != "thorough"
@@ -438,6 +528,10 @@ def run(tier, seed):
     ng = 640 if quick else 40000
     for a in common.pmap(generated_shard, [(seed * 769 + i, ng // 32) for i in range(32)]):
         total.merge(a)
+    nm = 1920 if quick else 160000
+    for a in common.pmap(matrix_shard, [(seed * 773 + i, nm // 32) for i in range(32)]):
+        total.merge(a)
+    total.count("matrix_library_fields", len(MATRIX_CLUSTERS))
     rule = (f"histories of 1..8 requests drawn from {len(REQS)} request programs that share one library value (through "
             "an import and through an ext var) on one long-lived Program: values, explicit errors, assertion failures, "
             "stack overflows whose occurrence depends on the max_stack in effect, cycles, lazily failing elements, "
@@ -445,7 +539,13 @@ def run(tier, seed):
             "four-request pools built around failure-then-reuse shapes; plus GENERATED library objects (typed "
             "generator: inheritance, asserts, hidden fields, object locals, self/super) queried by histories drawn "
             f"from {len(GEN_REQS)} observation/derivation requests (+, +:, objectRemoveKey, mergePatch, mapWithKey, "
-            "comprehensions over the fields, ...); each response compared with the response of "
+            "comprehensions over the fields, ...); a matrix library of " + str(len(MATRIX_CLUSTERS)) + " fields - every way a delayed "
+            "computation arises (field, element, object local, +: over and under, comprehensions, default argument, assert message; "
+            "lazily created calls of map/mapWithIndex/mapWithKey/filterMap/makeArray/flatMap/filter/sort key/foldl) x every way it "
+            "fails (explicit error, assert, type, unknown field, division, index, native, limit-dependent overflow, cycle, nested "
+            "lazy error, arity too many/too few, failing/ok defaults, builtin arity/type), and failing objects behind wrappers that add "
+            "nothing (+ {}, {} +, objext, local, assert true, removed key, hidden field) inside 4 holders - observed shallowly, deeply, "
+            "again, with gc and limit changes, in random orders; each response compared with the response of "
             "the same request on a fresh state (value walk, manifest text, error kind/message/in-source spans, stack-trace "
             "length; std.trace output is not compared); every history replayed in a second process for byte-identical records. "
             "distinct_nontrivial = distinct histories decided.")
